@@ -168,6 +168,23 @@ def run_case(ctx, kind_, idx):
                 a = x if target == "x" else y
                 if float(np.min(a)) == float(np.max(a)):
                     a = a + np.arange(len(a))
+                int_case = (not defaults) and rng.integers(0, 5) == 0
+                if int_case:
+                    # integer-typed data with an integer-typed target range (counters -> percent, ns -> ms): every
+                    # intermediate product must be formed in floating point
+                    dt = [np.int32, np.int64, np.uint8, np.uint16][int(rng.integers(0, 4))]
+                    top = int(min(np.iinfo(dt).max, 4 * 10 ** 11))
+                    vals = np.unique(rng.integers(0, top, len(a), dtype=np.int64, endpoint=True))
+                    if len(vals) < 2:
+                        vals = np.array([0, top], dtype=np.int64)
+                    a = (np.sort(vals) if target == "x" else rng.permutation(vals)).astype(dt)
+                    lo = int(rng.choice([0, -5, 1]))
+                    hi = lo + int(rng.choice([100, 10 ** 5, 10 ** 9, 255]))
+                    info["int_case"] = str(np.dtype(dt))
+                    if target == "x":
+                        y = y[:len(a)] if len(y) >= len(a) else np.resize(y, len(a))
+                    else:
+                        x = np.arange(len(a), dtype=float)
                 info.update({"min_val": lo, "max_val": hi, "target": target})
                 if via_weaver:
                     wv = Weaver(x.copy() if target == "y" else a.copy(), a.copy() if target == "y" else y.copy())
@@ -180,7 +197,7 @@ def run_case(ctx, kind_, idx):
                     getattr(wv, "normalize_" + target)(lo, hi)
                     g = wv.get()[0 if target == "x" else 1]
                 else:
-                    ain, _k = gen.as_container(rng, a)
+                    ain, _k = (a, "as is") if int_case else gen.as_container(rng, a)
                     g = process.normalize(ain) if defaults else process.normalize(ain, lo, hi)
                 ctx.judged()
                 ctx.monitor("c14:normalize")
